@@ -15,4 +15,16 @@ CLAIMED = {
   "technique": "Coq refinement proof (model of generated map = reference association list, by induction over histories) + computed lock-discipline theorem over a table translated from source + exhaustive/random correspondence runs",
  },
 }
+CLAIMED["C10"] = {
+  "text": "Full proof for every RFC 8259 numeral except one refused shape: C10_scan_render_value shows that the model of the library's number scanner/normaliser "
+          "(9 states, intLen/fraLen/expBegin, ParseInt with explicit uint wrap, getNatural's three cases, both trims, zero loses its sign) maps render(u) of ANY well-formed "
+          "numeral u (any digit counts, either exponent case/sign, exponent within Go's int) to a canonical number whose rational value equals the numeral's; "
+          "C10_canonical_unique: equal value => identical normal form; C10_cmp_exact: Cmp = Qcompare on values; C10_min/max_ok_exact; C10_integer_iff / C10_precision_iff: "
+          "fractional length 0 / <= p iff value (x 10^p) is an integer; C10_neg_zero_is_zero. All axiom-free. The refused shape 0e1 is C10_zero_int_exp_refuted (known finding). "
+          "Tie: model vs library on every string <= 5 (quick) / 6 (thorough) chars over {-,0,1,5,9,.,e,E,+}, every numeral <= 6/7 chars and all pairs <= 3/4 chars, random 60-digit "
+          "numerals with |exp| <= 400 against re-spellings and 1-ulp neighbours, all also against python Fraction, and Validate verdicts for min/max/exclusive at API level.",
+  "note": "Trusted: Coq kernel; extraction + modelrun; overlay package re-exporting internal/json; python Fraction as second oracle. Exponents >= 2^63 and |exp| > 400 are outside "
+          "the quantifier. Known finding C10-zero-int-exponent (0e1 refused) is excluded by hypothesis zero_int_then_exp = false, exactly the class the check silences.",
+  "technique": "Coq proof: scanner model on render(u) yields canonical form with exact Q value; Cmp = Qcompare (induction over digit strings) + exhaustive/random correspondence with exact rational oracle",
+}
 NOT_APPLICABLE = {}
